@@ -1,9 +1,13 @@
 package main
 
 import (
+	"encoding/json"
 	"fmt"
+	"os"
 
 	"github.com/formancehq/ledger/xverif/lib/evid"
+	"github.com/formancehq/ledger/xverif/lib/nsgen"
+	"github.com/formancehq/ledger/xverif/lib/nsrun"
 )
 
 // development aids (not registered in MANIFEST.json): run one part of a check alone; evidence goes to DEV-*.json
@@ -30,5 +34,21 @@ func init() {
 		rep := evid.NewReporter("DEV-reslimit", "exploration")
 		n := resourceLimit(rep, "")
 		return rep.Finish(evid.Coverage{"states": n, "transitions": n, "exhaustive": true})
+	}
+}
+
+func init() {
+	// DEV-probe: run the script texts of $VERIF_TEXTS (a JSON list) through the compile / run phases and print what happens
+	checks["DEV-probe"] = func() int {
+		var texts []string
+		if err := json.Unmarshal([]byte(os.Getenv("VERIF_TEXTS")), &texts); err != nil {
+			fmt.Println("VERIF_TEXTS:", err)
+			return 2
+		}
+		for _, t := range texts {
+			r := nsrun.Run(t, &nsgen.Input{})
+			fmt.Printf("%q: class=%s phase=%s err=%q panic=%q\n", t, r.Class, r.Phase, r.Err, r.Panic)
+		}
+		return 0
 	}
 }
